@@ -18,7 +18,7 @@ CHECKS = {
                 "Lipschitz bound; for every accuracy-stopped run whose reliability precondition holds (evaluated "
                 "from the observed history) the stated bound on best - f* is asserted. Exploration, not proof: the "
                 "theorem is quantified over all Lipschitz functions and the check samples them; the bound has a "
-                "factor 2-3 of slack, so it detects damaged searches, not marginally weakened ones. Runs include 1-D thin boxes, eps down to 1e-6 and a first Solve with a small budget that is raised before the deciding Solve.",
+                "factor 2-3 of slack, so it detects damaged searches, not marginally weakened ones. Runs include 1-D thin boxes, eps down to 1e-6 and a first Solve with a small budget that is raised before the deciding Solve. A quarter of the cases refine; about 1 % are very long runs (32,000 trials) on a flat objective with one narrow well; objectives may carry a level of 1e2..1e7 and problems may return a new value holder.",
                 note="Trusted: closed-form minima / Lipschitz bounds of the generated families (vlib/objectives.py), "
                 "the independent AGP model (vlib/agp.py), history taken from listener items. Precondition evaluated "
                 "with M at the last decision, conclusion with final M (subset of the stated hypothesis).",
@@ -35,7 +35,7 @@ CHECKS = {
                 "(itersLimit 1/2, eps>=1, eps equal to a reachable Hoelder length)",
                 text="One Solve() per generated (objective, box, r, eps, itersLimit); the number of evaluations, the "
                 "reported counts, the budget, the exact stopping index and the reported accuracy are recomputed from "
-                "the observed history. Termination is decided by an evaluation-count guard. A quarter of the cases spend budget through DoGlobalIteration first and call Solve repeatedly; a sixth raise itersLimit after a first Solve.",
+                "the observed history. Termination is decided by an evaluation-count guard. A quarter of the cases spend budget through DoGlobalIteration first and call Solve repeatedly; a sixth raise itersLimit after a first Solve. A tenth of the cases run into the float resolution under an executed-line termination bound; startPoint may be set.",
                 note="Trusted: independent model for interval lengths; strictness of '<' read from the solver's own "
                 "reported accuracy; infinite loops without evaluations only surface as a watchdog (exit 2).",
                 ref="3/C03"),
@@ -49,7 +49,7 @@ CHECKS = {
     "C05": dict(cat="exploration", tech="property-based testing (Hypothesis): box-containment invariant over the "
                 "evaluation log plus metamorphic check of refinement (never worse, value = objective at point)",
                 text="Generated objectives whose descent direction leaves the box (linear, outside-vertex bowls, "
-                "kinks on faces), all dimensions, thin and far-from-origin boxes, refinement on/off, tiny budgets.",
+                "kinks on faces), all dimensions, thin and far-from-origin boxes, refinement on/off, tiny budgets. Refinement may be requested explicitly (DoLocalRefinement(k), repeated, alternating with global iterations); integer-typed boxes; another solver may run before the result is read.",
                 note="Containment tolerance 1e-12*(|lower|+|upper|+width); global phase = first numberOfGlobalTrials "
                 "log entries.", ref="3/C05"),
     "C06": dict(cat="exploration", tech="property-based testing (Hypothesis): after every call the search "
@@ -103,7 +103,7 @@ CHECKS = {
                 "oracle = each solver run alone (A-B-A)",
                 text="Rules create, step, solve and read up to four solvers with different problems; after every rule "
                 "every solver's log must be a prefix of its solo log, its search information must pass the C06 "
-                "invariants and every Solution ever returned must still report its own solver's optimum. Problems have N=1..7; solvers may share one SolverParameters object or the default; refining Solve calls are compared in full with the solo run.",
+                "invariants and every Solution ever returned must still report its own solver's optimum. Problems have N=1..7; solvers may share one SolverParameters object or the default; refining Solve calls are compared in full with the solo run. Sub-check shared_pairs: two solvers on one SolverParameters object (incl. solvers driven into the float-resolution branch) against the same calls on separate objects; shipped problems incl. Grishagin; densities 6-12; startPoint.",
                 note="Solo runs are computed in the same process before and after the interleaved phase.",
                 ref="3/C12"),
     "C13": dict(cat="exploration", tech="property-based testing (Hypothesis) over listener classes generated by "
@@ -140,7 +140,7 @@ CHECKS = {
                 text="Interleaved GetImage / GetInverseImage / GetPreimages / SetBounds calls with arguments as array, "
                 "list or integer list; every result must be bit-equal to a fresh object's, arguments unchanged "
                 "(dtype included), previously returned arrays unchanged.", note="Oracle shares the implementation "
-                "(differential against a fresh instance), so it decides purity, not correctness (C07-C09 do).",
+                "(differential against a fresh instance), so it decides purity, not correctness (C07-C09 do). Bounds may be integer-typed at construction, computed from the object's own arrays, or nudged in the 6th-16th digit.",
                 ref="3/C17"),
     "C18": dict(cat="exploration", tech="enumeration of every constructor argument of every family (metadata) and of "
                 "all 2x1000 table rows against a 1e6-point grid + polishing of every local extremum",
